@@ -11,11 +11,13 @@ Answer: `model=<raw model result> modelN=<model result, value normalised> spec=<
 flags: `w` the string contains a character that Python treats as white space but XSD does not
        `v` the string is not in whitespace-normal form (s ≠ wsCollapse s)
        `d` (op=cast, double -> string) the double lies where string_value and the F&O canonical form differ (F10b)
+       `r` (op=cast, double operand) the model `pyRepr` of CPython's repr(float) does not reproduce the given repr
        `o` (op=cast, integer -> double) the integer is too large for float(int) (F10o)
 -/
 import EPV.Proto
 import EPV.Model.Lexical
 import EPV.Spec.XSDLexical
+import EPV.Lemmas.LexicalRepr
 open EPV.Proto EPV
 
 def parseCPs (s : String) : Option (List Char) :=
@@ -231,8 +233,11 @@ def castAnswer (fs : List (String × String)) : String :=
         match x with
         | .fin _ _ _ =>
           (match parseRepr r with
-           | some (_, ds, e) =>
-             some (.dbl x r, .dbl sx ds e, if !ds.isEmpty && Lex.dblStrTrigger ds.length e then "d" else "")
+           | some (ng, ds, e) =>
+             -- `r` flags a repr string that the model `pyRepr` of CPython's repr does not reproduce
+             let rflag := if !ds.isEmpty && LexLemmas.pyRepr ng ds e != r then "r" else ""
+             some (.dbl x r, .dbl sx ds e,
+               (if !ds.isEmpty && Lex.dblStrTrigger ds.length e then "d" else "") ++ rflag)
            | none => none)
         | _ => some (.dbl x r, .dbl sx [] 0, "")
       | _, _ => none
